@@ -413,3 +413,34 @@ any_state_step!(c07_any_state_step_d0, 0);
 any_state_step!(c07_any_state_step_d1, 1);
 any_state_step!(c07_any_state_step_d2, 2);
 
+
+/// The u16 boundary of the reassembly buffer: an in-progress buffer of 65 535 bytes (contents
+/// unconstrained) plus a 1-byte fragment. The pseudo-header length wraps (documented `as u16` cast);
+/// the call must return Incomplete (the model message is longer), append the byte and stay in progress.
+#[kani::proof]
+#[kani::unwind(4)]
+#[kani::stub(tp::parse_tls_record_with_header, model_rwh_nolen)]
+fn c07_step_at_64k_boundary() {
+    unsafe { NEED = 70_000; }
+    let cur: u8 = kani::any();
+    kani::assume(cur != 0x14 && cur != 0x15);
+    let mut big: Vec<u8> = Vec::with_capacity(65_600);
+    unsafe { big.set_len(65_535); }
+    let mut p = ManuallyDrop::new(TlsRecordsParser::verif_from_parts(big, Some(TlsRecordType(cur))));
+    let data: [u8; 1] = kani::any();
+    {
+        let r = ManuallyDrop::new(p.parse_record(raw(cur, &data[..])));
+        vassert!(class(&r) == Class::Incomplete, "C07.step64k.fragment_answers_incomplete");
+    }
+    vassert!(p.verif_buffer().len() == 65_536 && p.defrag_in_progress(), "C07.step64k.fragment_appended_and_still_in_progress");
+    vcover!(true, "C07.cover.step64k");
+}
+
+/// model callee without the header-length requirement (the pseudo-header length wraps at 64 KiB by design)
+fn model_rwh_nolen<'i>(i: &'i [u8], _hdr: &TlsRecordHeader) -> IResult<&'i [u8], Vec<TlsMessage<'i>>> {
+    match model_outcome(i) {
+        MOut::CutShort => Err(Err::Error(Error::new(i, ErrorKind::Complete))),
+        MOut::Malformed => Err(Err::Error(Error::new(i, ErrorKind::Tag))),
+        MOut::Ok { used } => Ok((&i[used..], Vec::new())),
+    }
+}
